@@ -1178,6 +1178,10 @@ struct World {
     freezers: Vec<tokio::sync::oneshot::Sender<()>>,
     /// the only URI a connection can be made to (anything else is refused, as a network would)
     target: Option<http::Uri>,
+    /// `A`: the next connection attempt announces itself on `started` and then waits at `gate`
+    hold: bool,
+    gate: Arc<tokio::sync::Notify>,
+    started: tokio::sync::mpsc::UnboundedSender<()>,
 }
 
 /// `.1`: the readiness protocol of a strict connector (`y`): 0 = `call` not allowed (the next
@@ -1211,16 +1215,27 @@ impl Service<http::Uri> for ScriptConnector {
             self.1 = 0;
         }
         let world = self.0.clone();
-        let (id, outcome) = {
+        let (id, outcome, held) = {
             let mut w = world.lock().unwrap();
             w.attempts += 1;
             // past the end of the script every attempt fails
             let o = w.outcomes.pop_front().unwrap_or('F');
             // an attempt to reach anything but the endpoint's own URI reaches nothing
             let wrong = w.target.as_ref().map(|t| *t != uri).unwrap_or(false);
-            (w.attempts, if wrong { 'F' } else { o })
+            let held = if w.hold {
+                w.hold = false;
+                let _ = w.started.send(());
+                Some(w.gate.clone())
+            } else {
+                None
+            };
+            (w.attempts, if wrong { 'F' } else { o }, held)
         };
         Box::pin(async move {
+            if let Some(gate) = held {
+                // in progress until the script lets it go on
+                gate.notified().await;
+            }
             if outcome.is_ascii_lowercase() {
                 tokio::time::sleep(Duration::from_millis(5)).await;
             }
@@ -1332,6 +1347,8 @@ fn run_e2e(lazy: bool, outcomes: &str, ops: &str, with_timeout: bool, opts: &str
     let rt = paused_rt();
     rt.block_on(async move {
         let (arrived_tx, mut arrived_rx) = tokio::sync::mpsc::unbounded_channel::<usize>();
+        let (started_tx, mut started_rx) = tokio::sync::mpsc::unbounded_channel::<()>();
+        let gate = Arc::new(tokio::sync::Notify::new());
         let world = Arc::new(Mutex::new(World {
             outcomes: outcomes.chars().filter(|c| *c != '-').collect(),
             attempts: 0,
@@ -1340,6 +1357,9 @@ fn run_e2e(lazy: bool, outcomes: &str, ops: &str, with_timeout: bool, opts: &str
             arrived: arrived_tx,
             freezers: Vec::new(),
             target: Some(http::Uri::from_static("http://verif.invalid:50051")),
+            hold: false,
+            gate: gate.clone(),
+            started: started_tx,
         }));
         // `y`: a connector that insists on tower's readiness protocol (`Pending` first, `call` only
         // after `Ready`)
@@ -1441,23 +1461,49 @@ fn run_e2e(lazy: bool, outcomes: &str, ops: &str, with_timeout: bool, opts: &str
                     out.push("d".into());
                 }
                 'A' => {
-                    // a call abandoned 1 ms after it was issued: while its connection attempt (a
-                    // delayed one, lower-case outcome) is still in progress. Not generated (see
-                    // reviews/aC14-AUDIT.md): reports how many attempts there were afterwards
-                    {
-                        let fut = async {
-                            client.ready().await.map_err(ready_err)?;
-                            let path = http::uri::PathAndQuery::from_static("/verif.WhoAmI/Who");
-                            client
-                                .unary::<Vec<u8>, Vec<u8>, _>(tonic::Request::new(b"hi".to_vec()), path, raw::RawCodec)
-                                .await
-                                .map(|resp| String::from_utf8_lossy(resp.get_ref()).to_string())
-                                .map_err(status_err)
-                        };
-                        let _ = tokio::time::timeout(Duration::from_millis(1), fut).await;
+                    // a call that the application abandons (drops the future of) IF it has to wait
+                    // for a connection attempt: the attempt it triggers is held in progress, the
+                    // call is dropped, the attempt goes on and ends as the script says — with nobody
+                    // waiting for it. A call that needs no new attempt completes as usual.
+                    while started_rx.try_recv().is_ok() {}
+                    world.lock().unwrap().hold = true;
+                    let fut = async {
+                        client.ready().await.map_err(ready_err)?;
+                        let path = http::uri::PathAndQuery::from_static("/verif.WhoAmI/Who");
+                        client
+                            .unary::<Vec<u8>, Vec<u8>, _>(tonic::Request::new(b"hi".to_vec()), path, raw::RawCodec)
+                            .await
+                            .map(|resp| String::from_utf8_lossy(resp.get_ref()).to_string())
+                            .map_err(status_err)
+                    };
+                    let fut: Pin<Box<dyn Future<Output = Result<String, (tonic::Status, String)>> + '_>> = Box::pin(fut);
+                    let mut fut = Some(fut);
+                    let first = tokio::time::timeout(WATCHDOG, async {
+                        tokio::select! {
+                            biased;
+                            r = fut.as_mut().unwrap() => Ok(r),
+                            _ = started_rx.recv() => Err(()),
+                        }
+                    })
+                    .await;
+                    world.lock().unwrap().hold = false;
+                    drop(fut.take());
+                    let (tok, stop) = match first {
+                        Err(_) => (format!("c:hang:a{}", attempts(&world)), true),
+                        Ok(Ok(r)) => {
+                            tokio::time::sleep(QUIESCE).await;
+                            call_tok(Ok(r), attempts(&world))
+                        }
+                        Ok(Err(())) => {
+                            gate.notify_one();
+                            tokio::time::sleep(QUIESCE).await;
+                            (format!("A:a{}", attempts(&world)), false)
+                        }
+                    };
+                    out.push(tok);
+                    if stop {
+                        break;
                     }
-                    tokio::time::sleep(QUIESCE).await;
-                    out.push(format!("A:a{}", attempts(&world)));
                 }
                 'a' => {
                     // a call the application abandons (drops the future of) once the request has
@@ -2428,15 +2474,23 @@ pub fn execute(case: &str) -> String {
             Ok(n) => run_sess(*m == "L", env, n),
             Err(_) => "bad-case".into(),
         },
-        ["e2e", m, outs, ops] if (*m == "L" || *m == "E") && !ops.contains('h') => run_e2e(*m == "L", outs, ops, true, ""),
-        ["e2n", m, outs, ops] if (*m == "L" || *m == "E") && !ops.contains('h') => run_e2e(*m == "L", outs, ops, false, ""),
-        ["e2c", m, outs, ops] if (*m == "L" || *m == "E") && !ops.contains('h') => run_e2e(*m == "L", outs, ops, false, "D"),
+        ["e2e", m, outs, ops] if (*m == "L" || *m == "E") && !ops.contains('h') && !ops.contains('A') => run_e2e(*m == "L", outs, ops, true, ""),
+        ["e2n", m, outs, ops] if (*m == "L" || *m == "E") && !ops.contains('h') && !ops.contains('A') => run_e2e(*m == "L", outs, ops, false, ""),
+        ["e2a", m, outs, ops]
+            if (*m == "L" || *m == "E")
+                && ops.chars().all(|c| "cdA-".contains(c))
+                && outs.chars().all(|c| "FSXfsx-".contains(c)) =>
+        {
+            run_e2e(*m == "L", outs, ops, true, "")
+        }
+        ["e2c", m, outs, ops] if (*m == "L" || *m == "E") && !ops.contains('h') && !ops.contains('A') => run_e2e(*m == "L", outs, ops, false, "D"),
         ["e2d", m, et, outs, ops]
             if (*m == "L" || *m == "E")
                 && (*et == "-" || et.chars().all(|c| "znslqrykxowb".contains(c)))
                 // a silent peer is only noticed with the keep-alive options; a one-slot buffer
                 // cannot hold the two requests of `p` the way the harness issues them
                 && (!ops.contains('h') || et.contains('k'))
+                && !ops.contains('A')
                 && !(ops.contains('p') && et.contains('b')) =>
         {
             run_e2e(*m == "L", outs, ops, true, if *et == "-" { "" } else { et })
